@@ -52,6 +52,8 @@ def run(shard, rec, tier, seed):
                 rec.count("base-spec-rejected-by-generator")
                 continue
             rec.count("trees-staged")
+            if t.generator_reused:
+                rec.count("trees-generated-by-an-instance-that-read-an-earlier-revision")
             run_tree(rec, tier, seed, ti, spec, t)
 
 
